@@ -124,11 +124,13 @@ pub fn remove_tok(mode: u8, c: usize, r: usize, spare: bool, script: bool, end: 
         // leaked drain: the array may have lost elements, but what it holds is live and distinct,
         // and it stays usable
         cells_live_distinct(&t);
-        let (cc, rr) = t.size();
         let what = nd::u8_();
         nd::assume(what < 3);
         if what == 0 {
-            t.push_row(toks(cc, 200));
+            // modify: replace the first remaining cell
+            if t.data().len() > 0 {
+                t.data_mut()[0] = tok(9);
+            }
             inv(&t);
             cells_live_distinct(&t);
         } else if what == 1 {
